@@ -161,20 +161,6 @@ func (m *C08Monitor) AfterPass(r *Runner, pv *PassView) error {
 					"pass %d: history pruning deleted %s; with revisionHistoryLimit=%d and previous revisions %v only %v may be deleted", pv.P.ID, d, limit, setNames(prev), want)
 			}
 		}
-		// oldest first: the deleted ones must form a prefix
-		for i, wname := range want {
-			if i < len(deleted) {
-				found := false
-				for _, d := range deleted {
-					if d == wname {
-						found = true
-					}
-				}
-				if !found {
-					return Violf("C08", "prune-not-oldest-first", "pass %d: pruning deleted %v but skipped the older %s", pv.P.ID, deleted, wname)
-				}
-			}
-		}
 	}
 	return nil
 }
